@@ -58,6 +58,35 @@ def decode(obj):
     return obj
 
 
+def vary_layout(a, salt=0):
+    """'For every input' includes the memory layout of the caller's arrays.  Returns `a` unchanged (50 %), a Fortran-ordered copy
+    (25 %) or a non-contiguous strided view into a larger buffer (25 %); which one is a deterministic function of the array's
+    shape and leading bytes (and `salt`), so a replayed case sees the same layouts.  Values are identical."""
+    import zlib
+    if not isinstance(a, np.ndarray) or a.dtype.kind not in "fiub" or a.ndim not in (1, 2) or a.size == 0:
+        return a
+    mode = zlib.crc32(repr((a.shape, salt)).encode() + np.ascontiguousarray(a).tobytes()[:256]) % 4
+    if mode < 2:
+        return a
+    if mode == 2:
+        return np.asfortranarray(a).copy(order="F") if a.ndim == 2 else a.copy()
+    if a.ndim == 1:
+        big = np.zeros(2 * len(a), dtype=a.dtype)
+        big[::2] = a
+        return big[::2]
+    big = np.zeros((a.shape[0] + 1, 2 * a.shape[1]), dtype=a.dtype)
+    big[1:, ::2] = a
+    return big[1:, ::2]
+
+
+def layout_name(a):
+    if not isinstance(a, np.ndarray) or a.ndim != 2:
+        return "other"
+    if a.flags.c_contiguous:
+        return "C"
+    return "F" if a.flags.f_contiguous else "strided"
+
+
 def canonical(case):
     return json.dumps(encode(case), sort_keys=True, separators=(",", ":"))
 
